@@ -239,6 +239,8 @@ impl Op {
         }
         if matches!(self.k, OK::SpliceIn | OK::SpliceOut) {
             self.n = self.n.min(4096);
+            // the splice API takes i64 offsets (negative = file position)
+            self.off = self.off.min(1 << 62);
         }
     }
 
@@ -706,6 +708,10 @@ impl RefWorld {
         }
     }
 
+    pub fn file_fd(&self, h: usize) -> Option<RawFd> {
+        self.files[h].as_ref().map(|f| f.as_raw_fd())
+    }
+
     /// (size, type) of the file in slot `h`.
     pub fn slot_info(&self, h: usize) -> Option<(u64, char)> {
         self.files[h].as_ref().map(|f| (f.metadata().map(|m| m.len()).unwrap_or(0), ftype_of(f)))
@@ -1112,6 +1118,67 @@ impl RefWorld {
 }
 
 // ---------------------------------------------------------------------------
+// resynchronisation after a reported disagreement (harness-side syscalls
+// only): lets the variant stay in the program instead of losing coverage
+// ---------------------------------------------------------------------------
+
+/// Make the file behind `to` have the content *and allocation* (holes stay
+/// holes) of the file behind `from`.
+pub fn copy_fd_content(from: RawFd, to: RawFd) -> bool {
+    use std::os::unix::fs::FileExt;
+    let Ok(src) = fs::File::open(format!("/proc/self/fd/{from}")) else { return false };
+    let Ok(m) = src.metadata() else { return false };
+    if !m.is_file() || m.len() > (64 << 20) {
+        return false;
+    }
+    let Ok(dst) = fs::OpenOptions::new().write(true).truncate(true).open(format!("/proc/self/fd/{to}")) else {
+        return false;
+    };
+    if dst.set_len(m.len()).is_err() {
+        return false;
+    }
+    let len = m.len() as i64;
+    let mut pos: i64 = 0;
+    let mut copied: u64 = 0;
+    while pos < len {
+        let data = unsafe { libc::lseek64(src.as_raw_fd(), pos, libc::SEEK_DATA) };
+        if data < 0 {
+            break; // ENXIO: only a hole is left
+        }
+        let mut hole = unsafe { libc::lseek64(src.as_raw_fd(), data, libc::SEEK_HOLE) };
+        if hole < 0 || hole > len {
+            hole = len;
+        }
+        let n = (hole - data) as usize;
+        copied += n as u64;
+        if copied > (8 << 20) {
+            return false;
+        }
+        let mut buf = vec![0u8; n];
+        if src.read_exact_at(&mut buf, data as u64).is_err() || dst.write_all_at(&buf, data as u64).is_err() {
+            return false;
+        }
+        pos = hole;
+    }
+    match (src.metadata(), dst.metadata()) {
+        (Ok(a), Ok(b)) => a.len() == b.len() && a.blocks() == b.blocks(),
+        _ => false,
+    }
+}
+
+/// Perform the splice of `op` on the variant's descriptors.
+pub fn redo_splice(op: &Op, file_fd: RawFd, pipe_fd: RawFd) -> io::Result<usize> {
+    let mut off = op.off as i64;
+    cvt(unsafe {
+        if op.k == OK::SpliceIn {
+            libc::splice(file_fd, &mut off, pipe_fd, std::ptr::null_mut(), op.n as usize, libc::SPLICE_F_NONBLOCK)
+        } else {
+            libc::splice(pipe_fd, std::ptr::null_mut(), file_fd, &mut off, op.n as usize, libc::SPLICE_F_NONBLOCK)
+        }
+    })
+}
+
+// ---------------------------------------------------------------------------
 // compio executor
 // ---------------------------------------------------------------------------
 
@@ -1336,6 +1403,22 @@ impl CWorld {
             rx: (0..NP).map(|_| None).collect(),
             tx: (0..NP).map(|_| None).collect(),
         }
+    }
+
+    pub fn file_fd(&self, h: usize) -> Option<RawFd> {
+        self.files[h].as_ref().map(|f| f.as_raw_fd())
+    }
+
+    pub fn pipe_fds(&self, k: usize) -> (Option<RawFd>, Option<RawFd>) {
+        (self.rx[k].as_ref().map(|f| f.as_raw_fd()), self.tx[k].as_ref().map(|f| f.as_raw_fd()))
+    }
+
+    /// Bytes queued in pipe slot `k` (None when the receiver is closed).
+    pub fn pipe_avail(&self, k: usize) -> Option<usize> {
+        let fd = self.rx[k].as_ref()?.as_raw_fd();
+        let mut n: libc::c_int = 0;
+        unsafe { libc::ioctl(fd, libc::FIONREAD, &mut n) };
+        Some(n.max(0) as usize)
     }
 
     /// Execute one step; must run inside the variant's runtime.
